@@ -100,6 +100,10 @@ def proj_value(v, big):
         return dict(nil, t='empty')
     if type(v) is str and v == 'released':
         return dict(nil, t='released')
+    if type(v) is str and v == 'busydone':
+        return dict(nil, t='busydone')
+    if type(v) is str and v == 'slowval':
+        return dict(nil, t='slow')
     if type(v) is bytes and v == big:
         return dict(nil, t='big')
     if isinstance(v, (tuple, list)) and len(v) == 2 and isinstance(v[0], list) and isinstance(v[1], dict):
@@ -126,6 +130,7 @@ class Replay:
         self.finished = False
         self.current = None       # step being executed (for hang reports)
         self.hung = False
+        self.oldfronts = []
         self.off = False          # a settle wait timed out: the run has left the behaviour, stop steering it
 
     # -- helpers
@@ -236,8 +241,10 @@ class Replay:
             return
         if cstate == 'dead':
             self.await_(self.worker_os_dead, 'dead')
-        elif cstate == 'stuck' and self.flags:
-            self.await_(lambda: os.path.exists(self.flags[-1] + '.started'), 'stuck')
+        elif cstate in ('stuck', 'busy') and self.flags:
+            self.await_(lambda: os.path.exists(self.flags[-1] + '.started'), cstate)
+        elif cstate == 'slow' and self.flags:
+            self.await_(lambda: os.path.exists(self.flags[-1] + '.rebuilding'), 'slow')
         if hasdata == 'T':
             self.await_(lambda: self.count_ready(n) or self.worker_os_dead(), 'data')
 
@@ -249,7 +256,7 @@ class Replay:
 
     def do_enqueue(self, it, fn):
         a = [self.wrap(x) for x in it['a']]
-        if it['a'][:1] == ['@stuck']:
+        if it['a'][:1] in (['@stuck'], ['@busy'], ['@slowres']):
             flag = os.path.join(self.tmp, 'flag-%s-%d' % (self.job['id'], len(self.flags)))
             self.flags.append(flag)
             a.append(flag)
@@ -261,15 +268,17 @@ class Replay:
 
         def empty_kind():
             return 'End' if len(inc['raw']) > nraw else 'Empty'
-        if op in ('enq', 'enq@raise', 'enq@stuck'):
+        if op in ('enq', 'enq@raise', 'enq@stuck', 'enq@busy', 'enq@slow'):
             it = {'a': ['@raise'], 'kw': []} if op == 'enq@raise' else \
-                 {'a': ['@stuck'], 'kw': []} if op == 'enq@stuck' else self.item()
+                 {'a': ['@stuck'], 'kw': []} if op == 'enq@stuck' else \
+                 {'a': ['@busy'], 'kw': []} if op == 'enq@busy' else \
+                 {'a': ['@slowres'], 'kw': []} if op == 'enq@slow' else self.item()
             try:
                 self.do_enqueue(it, w.enqueue)
                 out = 'ok'
                 inc['enq'].append(it)
                 if inc['fault'] == 'none' and op != 'enq':
-                    inc['fault'] = 'poison' if op == 'enq@raise' else 'stuck'
+                    inc['fault'] = {'enq@raise': 'poison', 'enq@stuck': 'stuck', 'enq@busy': 'busy', 'enq@slow': 'slowres'}[op]
             except WCE:
                 out = 'WCE'
             if self.late:
@@ -357,13 +366,17 @@ class Replay:
         if op == 'release':
             open(self.flags[-1], 'w').close()
             return 'ok'
-        if op in ('restart', 'restartP', 'restartT', 'restartTnf'):
-            old_id, old_child = tuple(w.id), self.child
+        if op in ('restart', 'restartP', 'restartT', 'restartTnf', 'restartK', 'restartKP'):
+            old_id, old_child, old_front = tuple(w.id), self.child, self.front
             try:
                 if op == 'restart':
                     w.restart()
                 elif op == 'restartP':
                     w.restart(results_pipe=self.mods['Pipe']())
+                elif op == 'restartK':            # as Pool.restart_workers does: only the timeout
+                    w.restart(timeout=0.2)
+                elif op == 'restartKP':
+                    w.restart(timeout=0.2, results_pipe=self.mods['Pipe']())
                 elif op == 'restartT':
                     w.restart(0.2, timeout=0.2)
                 else:
@@ -374,13 +387,19 @@ class Replay:
                 inc['rraised'].append({'still': 'T' if still else 'F'})
                 return 'raised:RuntimeError'
             inc['endk'] = 'restarted'
-            inc['oldos'] = 'alive' if self.child_os_alive(old_child) else 'dead'
+            # the old incarnation = its child and, for a remote worker, the frontend thread that served it
+            front_alive = old_front is not None and old_front.is_alive()
+            inc['oldos'] = 'alive' if (self.child_os_alive(old_child) or front_alive) else 'dead'
+            if front_alive:
+                self.oldfronts.append(old_front)
             self.begin_inc()
             return 'ok'
         raise MachineryError('unknown op ' + op)
 
     def finish_history(self):
         w, inc = self.w, self.incs[-1]
+        for th in self.oldfronts:       # an abandoned frontend of a previous incarnation: let it do what it is going to do
+            th.join(4)
         inc['waited'] = 'T' if w.wait() else 'F'
         r = w.result
         inc['result'] = {'k': 'val', 'n': r} if type(r) is int and 0 <= r < 1000 else \
@@ -658,9 +677,44 @@ def _cfg(base, inv=None, **kw):
     return t
 
 
+_PRE = {}
+
+
+def prefetch(module, specs):
+    """Run the small, independent TLC runs (witnesses, wrong variants) side by side; _sr() picks the results up."""
+    from concurrent.futures import ThreadPoolExecutor
+
+    def one(s):
+        name, cfg_text = s
+        return name, cfg_text, tlc.run(module, cfg_text=cfg_text, name=name, must_complete=False, workers=2)
+    with ThreadPoolExecutor(max_workers=8) as ex:
+        for name, cfg_text, r in ex.map(one, specs):
+            _PRE[(module, name)] = (cfg_text, r)
+
+
+def _sr(module, cfg=None, cfg_text=None, name=None, must_complete=False):
+    """tlc.run for a small run: the prefetched result if the very same configuration was prefetched."""
+    if cfg_text is None:
+        cfg_text = open(os.path.join(tlc.SPEC, cfg)).read()
+    hit = _PRE.get((module, name))
+    if hit is not None and hit[0] == cfg_text:
+        return hit[1]
+    return tlc.run(module, cfg_text=cfg_text, name=name, must_complete=must_complete)
+
+
 def model_check(ev, prop, tier):
     """The design: exhaustive TLC runs, wrong variants that must be rejected, witnesses that must be reached."""
     wit = {}
+    if prop == 'C05':
+        prefetch('PersistentMC', [('blockafterclose', _cfg('Persistent_mc.cfg', BlockAfterClose='FALSE')),
+                                  ('prefix', open(os.path.join(tlc.SPEC, 'Persistent_prefix.cfg')).read())] +
+                 [(w, _cfg('Persistent_mc.cfg', inv=[w])) for w in ('W_NoFullStream', 'W_NoLate', 'W_NoCleanCall', 'W_NoLongerArgs', 'W_NoBlockingReadAfterClose')])
+    else:
+        prefetch('PersistentMC', [(w, _cfg('Persistent_c17.cfg', inv=[w])) for w in ('W_NoRestartUnread', 'W_NoRestartRaised', 'W_NoRestartKilled', 'W_NoSecondRestart')] +
+                 [(w, _cfg('Persistent_c17.cfg', inv=[w], Ops='Ops_c17timed')) for w in ('W_NoTimedRestartOfBusy', 'W_NoTimedRestartOfSlowFrontend')] +
+                 [('wrong-%s-%s' % (c, i), _cfg('Persistent_c17.cfg', inv=[i], Ops='Ops_c17timed', **{c: 'FALSE'}))
+                  for c, i in (('WaitTruthful', 'Inv_C17_FreshStream'), ('WaitTruthful', 'Inv_C17_RaisesNotAbandons'), ('TermOwnTimeout', 'Inv_C17_Live'))] +
+                 [('wrong-' + c, _cfg('Persistent_c17.cfg', **{c: 'FALSE'})) for c in ('FreshPipe', 'ResetClosed', 'CounterFirst')])
     if prop == 'C05':
         big = dict(MaxSteps=6, MaxEnq=2) if tier == 'thorough' else {}
         r = tlc.run('PersistentMC', cfg_text=_cfg('Persistent_mc.cfg', **big), coverage=(tier == 'thorough'), name='mc', timeout=3000)
@@ -668,7 +722,8 @@ def model_check(ev, prop, tier):
         if r.error:
             raise MachineryError('Persistent.tla violates its own properties: %s\n%s' % (r.error, '\n'.join(r.trace[:80])))
         r2 = tlc.run('PersistentMC', cfg_text=_cfg('Persistent_mc.cfg', Shapes='Sh_mc', DArgsSet='DA_mc', Settle='TRUE', MaxSteps=4 if tier == 'quick' else 5, MaxEnq=3,
-                                              DTypes='DT_list' if tier == 'quick' else 'DT_all'),
+                                              DTypes='DT_list' if tier == 'quick' else 'DT_all',
+                                              DKwSet='DK_one' if tier == 'quick' else 'DK_mc'),
                      name='mc-settled', timeout=3000)
         ev.add_tlc('exhaustive, settled caller: 5 enqueue shapes (fewer/as many/more args, overriding/new kwargs, None result), longer histories', r2)
         if r2.error:
@@ -678,16 +733,16 @@ def model_check(ev, prop, tier):
         ev.add_tlc('liveness: every blocked call of an enabled history returns', rl)
         if rl.error:
             raise MachineryError('liveness Live_Returns fails in the model: %s' % rl.error)
-        rb = tlc.run('PersistentMC', cfg_text=_cfg('Persistent_mc.cfg', BlockAfterClose='FALSE'), name='blockafterclose', must_complete=False)
+        rb = _sr('PersistentMC', cfg_text=_cfg('Persistent_mc.cfg', BlockAfterClose='FALSE'), name='blockafterclose', must_complete=False)
         if rb.error != 'invariant:Inv_C05_End':
             raise MachineryError('non-blocking read of a closed but still working worker is not rejected by the model checker: %s' % rb.error)
         wit['variant_BlockAfterClose_FALSE'] = rb.error
         for w in ('W_NoFullStream', 'W_NoLate', 'W_NoCleanCall', 'W_NoLongerArgs', 'W_NoBlockingReadAfterClose'):
-            rw = tlc.run('PersistentMC', cfg_text=_cfg('Persistent_mc.cfg', inv=[w]), name=w, must_complete=False)
+            rw = _sr('PersistentMC', cfg_text=_cfg('Persistent_mc.cfg', inv=[w]), name=w, must_complete=False)
             if rw.error != 'invariant:' + w:
                 raise MachineryError('witness %s not reachable (vacuous model): %s' % (w, rw.error))
             wit[w] = 'reached'
-        rp = tlc.run('PersistentMC', 'Persistent_prefix.cfg', name='prefix', must_complete=False)
+        rp = _sr('PersistentMC', 'Persistent_prefix.cfg', name='prefix', must_complete=False)
         if not (rp.error or '').startswith('invariant:Inv_C05'):
             raise MachineryError('the pre-fix merge (slice assignment on tuple defaults) is not rejected by the model checker: %s' % rp.error)
         wit['prefix_tuple_merge_model'] = rp.error
@@ -698,12 +753,29 @@ def model_check(ev, prop, tier):
         if r.error:
             raise MachineryError('Persistent.tla violates its own C17 properties: %s\n%s' % (r.error, '\n'.join(r.trace[:80])))
         for w in ('W_NoRestartUnread', 'W_NoRestartRaised', 'W_NoRestartKilled', 'W_NoSecondRestart'):
-            rw = tlc.run('PersistentMC', cfg_text=_cfg('Persistent_c17.cfg', inv=[w]), name=w, must_complete=False)
+            rw = _sr('PersistentMC', cfg_text=_cfg('Persistent_c17.cfg', inv=[w]), name=w, must_complete=False)
             if rw.error != 'invariant:' + w:
                 raise MachineryError('witness %s not reachable (vacuous model): %s' % (w, rw.error))
             wit[w] = 'reached'
+        rt_ = tlc.run('PersistentMC', cfg_text=_cfg('Persistent_c17.cfg', Ops='Ops_c17timed', MaxSteps=5 if tier == 'quick' else 6), name='mc17timed', timeout=3000)
+        ev.add_tlc('exhaustive, every interleaving with time: restart(timeout=t) against a busy target / a frontend still rebuilding a result (wait(t), then terminate() with its own grace)', rt_)
+        if rt_.error:
+            raise MachineryError('Persistent.tla (timed restarts) violates its own C17 properties: %s\n%s' % (rt_.error, '\n'.join(rt_.trace[:80])))
+        for w in ('W_NoTimedRestartOfBusy', 'W_NoTimedRestartOfSlowFrontend'):
+            rw = _sr('PersistentMC', cfg_text=_cfg('Persistent_c17.cfg', inv=[w], Ops='Ops_c17timed'), name=w, must_complete=False)
+            if rw.error != 'invariant:' + w:
+                raise MachineryError('witness %s not reachable (vacuous model): %s' % (w, rw.error))
+            wit[w] = 'reached'
+        for const, inv, expect in (('WaitTruthful', 'Inv_C17_FreshStream', 'invariant:Inv_C17_FreshStream'),
+                                   ('WaitTruthful', 'Inv_C17_RaisesNotAbandons', 'invariant:Inv_C17_RaisesNotAbandons'),
+                                   ('TermOwnTimeout', 'Inv_C17_Live', 'invariant:Inv_C17_Live')):
+            rv = _sr('PersistentMC', cfg_text=_cfg('Persistent_c17.cfg', inv=[inv], Ops='Ops_c17timed', **{const: 'FALSE'}),
+                         name='wrong-%s-%s' % (const, inv), must_complete=False)
+            if rv.error != expect:
+                raise MachineryError('wrong variant %s=FALSE is not rejected by %s: %s' % (const, inv, rv.error))
+            wit['variant_%s_FALSE_%s' % (const, inv)] = rv.error
         for const, expect in (('FreshPipe', 'invariant:'), ('ResetClosed', 'invariant:Inv_C17_Live'), ('CounterFirst', 'invariant:Inv_C17_CounterZero')):
-            rv = tlc.run('PersistentMC', cfg_text=_cfg('Persistent_c17.cfg', **{const: 'FALSE'}), name='wrong-' + const, must_complete=False)
+            rv = _sr('PersistentMC', cfg_text=_cfg('Persistent_c17.cfg', **{const: 'FALSE'}), name='wrong-' + const, must_complete=False)
             if not (rv.error or '').startswith(expect):
                 raise MachineryError('wrong variant %s=FALSE is not rejected by the model checker: %s' % (const, rv.error))
             wit['variant_%s_FALSE' % const] = rv.error
@@ -837,7 +909,7 @@ def run(prop, tier, replay=None):
         canhang = set(k for k, v in allowed.items() if any('hang' in o for o in v))
         eager = sorted(k for k in allowed if len(k) >= 2 and not any(k[:i] in canhang for i in range(1, len(k) + 1)))
         ev.cov['eager_call_sequences'] = {'total': len(allowed), 'can_hang_excluded': len(allowed) - len(eager)}
-        for ops_ in rng.sample(eager, min(len(eager), 400 if quick else 1500)):
+        for ops_ in rng.sample(eager, min(len(eager), 300 if quick else 1500)):
             add(rng.choice(['thread', 'thread', 'process', 'remote']) if not quick or rng.random() < 0.25 else 'thread',
                 [[o, '?', 'F', 'idle', 0] for o in ops_], mode='eager')
         # forced: blocking reads issued right after close() / a timed-out wait() while a slow target still owes results
@@ -856,9 +928,12 @@ def run(prop, tier, replay=None):
         ev.cov['forced_blocking_reads_after_close'] = nforced
     else:
         n_exh = 0
+        allp = dump_paths(ev, 'Persistent_c17paths.cfg', 'C17 settled, 3 kinds', Kinds='K_all',
+                          MaxSteps=5 if quick else 6, MaxRestarts=2 if quick else 3)
+        allt = dump_paths(ev, 'Persistent_c17paths.cfg', 'C17 timed restarts, 3 kinds', Kinds='K_all',
+                          Ops='Ops_c17timed', MaxSteps=4 if quick else 5)
         for kset, kinds in (('K_thread', ['thread']), ('K_proc', ['process']), ('K_remote', ['remote'])):
-            paths = [h for _, h in dump_paths(ev, 'Persistent_c17paths.cfg', 'C17 settled ' + kinds[0], Kinds=kset,
-                                              MaxSteps=5 if quick else 6, MaxRestarts=2 if quick else 3)]
+            paths = [h for k_, h in allp if k_ == kinds[0]]
             paths = [h for h in paths if any(s[0].startswith('restart') for s in h)]
             n_exh += len(paths)
             if kinds[0] == 'thread':
@@ -869,13 +944,24 @@ def run(prop, tier, replay=None):
                 sel = rng.sample(paths, min(len(paths), 140 if quick else 1500))
             for h in sel:
                 add(kinds[0], h)
+            # restart(timeout=t) against time: a busy target (blocking step longer than t, shorter than terminate's own
+            # grace) and, for the remote kind, a frontend that is still rebuilding a result when wait(t) gives up
+            tp = [h for k_, h in allt if k_ == kinds[0]]
+            tp = [h for h in tp if any(s[0] in ('restartK', 'restartKP') for s in h)]
+            n_exh += len(tp)
+            ntimed = {'thread': 12, 'process': 8, 'remote': 16}[kinds[0]] * (1 if quick else 8)
+            tsel = rng.sample(tp, min(len(tp), ntimed))
+            for must in (['enq@busy', 'restartK'], ['enq@busy', 'restartKP'], ['enq@slow', 'restartK'], ['enq@slow', 'restartKP']):
+                tsel += [h for h in tp if [s[0] for s in h] == must and h not in tsel]      # the bare situations, always
+            for h in tsel:
+                add(kinds[0], h)['timed'] = True
     only = os.environ.get('VERIF_PAPI_KINDS')          # debugging aid: restrict the replays to some kinds
     if only:
         jobs = [j for j in jobs if j['kind'] in only.split(',')]
     nproc = 14
     tl = 70 if quick else 1500
     # slow kinds first in each chunk order: interleave so every runner gets a similar load
-    jobs_sorted = sorted(jobs, key=lambda j: (j['kind'] == 'thread', j['id']))
+    jobs_sorted = sorted(jobs, key=lambda j: (not j.get('timed'), j['kind'] == 'thread', j['id']))
     ev.cov['phase_s']['path_dumps'] = T.s()
     results = run_jobs(jobs_sorted, nproc, prop, tl)
     ev.cov['phase_s']['replays'] = T.s()
@@ -952,6 +1038,7 @@ def run(prop, tier, replay=None):
                       % (n_exh, ', longer ones by TLC simulation, process/remote kinds by seeded sampling' if prop == 'C05' else ', thread kind all (or a seeded sample when more than the cap), process/remote seeded samples'))
     ev.cov['exhaustive'] = False
     ev.cov['replays_per_kind'] = per_kind
+    ev.cov['timed_restart_replays'] = sum(1 for j in jobs if j.get('timed') and j['id'] in byid)
     ev.cov['replays_not_run'] = len(missing)
     ev.cov['replay_mismatches'] = mism
     ev.cov['deviations'] = deviations
